@@ -602,7 +602,7 @@ pub fn check(ctx: &Ctx) {
     ];
     let mut gc = Vec::new();
     for k in kinds {
-        let seeds: u64 = if k == KeyKind::Rsa2048V4 { 1 } else if quick { 12 } else { 200 };
+        let seeds: u64 = if k == KeyKind::Rsa2048V4 { if quick { 1 } else { 8 } } else if quick { 12 } else { 3000 };
         for seed in 0..seeds {
             gc.push(GenCase { kind: k, seed: 500 + seed });
         }
@@ -610,7 +610,7 @@ pub fn check(ctx: &Ctx) {
     ctx.run_space(
         "generated_keys",
         true,
-        "generated certificates of 10 key kinds x seeds (12 / 200; P-521 and legacy EdDSA yield leading-zero MPIs regularly): primary and subkey fingerprints / key ids = reference value; all wrappers agree; issuer subpackets of self-signatures and bindings name the primary, those of the embedded back signature name the subkey; a data signature embeds the signer's fingerprint (with the right version octet) and key id (v4 only) and match_identity selects exactly the signer; PKESK v3 key id / v6 fingerprint name the encryption subkey and match_identity selects exactly it",
+        "generated certificates of 10 key kinds x seeds (12 / 3000, RSA 1 / 8; P-521 and legacy EdDSA yield leading-zero MPIs regularly): primary and subkey fingerprints / key ids = reference value; all wrappers agree; issuer subpackets of self-signatures and bindings name the primary, those of the embedded back signature name the subkey; a data signature embeds the signer's fingerprint (with the right version octet) and key id (v4 only) and match_identity selects exactly the signer; PKESK v3 key id / v6 fingerprint name the encryption subkey and match_identity selects exactly it",
         gc.into_par_iter(),
         run_generated,
     );
